@@ -6,7 +6,7 @@ import random, json, sys
 from ..harness import coq, impl
 
 pid = 'C05'
-gen_modules = ['tr_pin_invariant', 'tr_rest_validators', 'tr_rest_contractsconst']
+gen_modules = ['tr_invariant', 'tr_pin_invariant', 'tr_rest_validators', 'tr_rest_contractsconst']
 model_targets = ['Sem/InvModel.v']
 hand_modelled = ['coq/Sem/InvModel.v: InvariantedClass (__setattr__, __getattribute__, _deal_patched_method, _deal_validate) and InvariantValidator over '
                  'attribute dictionaries (hand-written; source pinned)']
